@@ -15,21 +15,22 @@ Row(t, k, d) == [t |-> t, k |-> k, d |-> d]
 BodyC == {"minus", "plus", "zero"}
 \* a line that opens a file section: git's "diff" line, diff -ru's title line, or (plain diff -u
 \* without title lines) the "--- " line of the next file
-IsStart(l) == l.c \in {"diff", "du"} \/ l.kd = "dufile"
+IsStart(l) == l.c \in {"diff", "du", "sublog"} \/ l.kd = "dufile"
 Boundaryish(l) == IsStart(l) \/ l.c = "commit"
 \* lines whose text looks like a header but which are hunk lines (diff -u): removed "-- x", added "++ x"
 HunkC(c) == IF c = "minus3" THEN "minus" ELSE IF c = "plus3" THEN "plus" ELSE c
 SecTemplateLen(kd) ==
   CASE kd = "mod" -> 3 [] kd = "add" -> 4 [] kd = "addempty" -> 2 [] kd = "del" -> 4 [] kd = "rename" -> 3
     [] kd = "renmod" -> 6 [] kd = "copy" -> 3 [] kd = "modeonly" -> 2 [] kd = "modemod" -> 5 [] kd = "bin" -> 2
-    [] kd = "binadd" -> 3 [] kd = "cc" -> 3 [] OTHER -> 0
+    [] kd = "binadd" -> 3 [] kd = "cc" -> 3 [] kd = "subshort" -> 6 [] OTHER -> 0
 SecHasHunks(kd) == kd \in {"mod", "add", "del", "renmod", "modemod", "cc"}
 
 \* What the one file header of a section must say: <<old, new, label, mode, binary>>
 \* (0 = /dev/null side; mode 2 = "mode changed" must be reported)
 WantHeader(l) ==
   LET f == l.f g == l.g kd == l.kd IN
-  CASE kd \in {"mod", "bare", "cc"} -> <<f, f, "modified", 0, FALSE>>
+  CASE kd \in {"mod", "bare", "cc", "subshort"} -> <<f, f, "modified", 0, FALSE>>
+    [] kd = "sublog"               -> <<f, f, "submodule", 0, FALSE>>
     [] kd \in {"add", "addempty"}  -> <<0, f, "added", 0, FALSE>>
     [] kd = "del"                  -> <<f, 0, "removed", 0, FALSE>>
     [] kd \in {"rename", "renmod"} -> <<f, g, "renamed", 0, FALSE>>
@@ -63,7 +64,7 @@ SecComplete(h, i) ==
                         /\ \A j \in (i + 1)..(e - 1) : h[j].c = "hh" => j + 1 < e /\ h[j + 1].c \in BodyC
 
 \* a hunk header must be shown iff its hunk has a line
-HunkShown(h, k) == k < Len(h) /\ ~Boundaryish(h[k + 1]) /\ h[k + 1].c # "hh"
+HunkShown(h, k) == k < Len(h) /\ ~Boundaryish(h[k + 1]) /\ h[k + 1].c \notin {"hh", "subm"}   \* (a submodule's two commit lines are shown as one row)
 
 \* is line k inside a hunk (after a hunk header of the current section)?
 RECURSIVE InHunk(_, _)
@@ -107,6 +108,8 @@ RowsOf(h, k) ==
     [] c = "hh"     -> IF HunkShown(h, k) THEN << Row("hunkHdr", k, <<>>) >> ELSE << >>
     [] HunkC(c) \in BodyC -> << Row(HunkC(c), k, <<>>) >>
     [] c = "nonl"   -> << Row("raw", k, <<>>) >>
+    [] c = "subc" -> << Row("raw", k, <<>>) >>
+    [] c = "subp" -> IF k > 1 /\ h[k - 1].c = "subm" THEN << Row("subshort", k, <<>>) >> ELSE << >>
     [] c \in {"other", "blank"} -> \* inside a header block the statement neither demands nor forbids the row
                                    << Row(IF InHeader(h, k - 1) THEN "rawopt" ELSE "raw", k, <<>>) >>
     [] OTHER        -> << >>
